@@ -96,7 +96,7 @@ theorem same_pendingTP (n : Node) (i : Nat) : SameRx n (pendingTP n i) := by
   unfold pendingTP
   simp only []
   refine SameRx.ite _ (SameRx.ite _ ?_ (same_endSendTP n i)) (SameRx.refl n)
-  have h1 : SameRx n (setTimer (sendTPDT n i).1 i 50) := (same_sendTPDT n i).trans (same_setTimer _ i 50)
+  have h1 : SameRx n (setTimer (sendTPDT n i).1 i n.bamGap) := (same_sendTPDT n i).trans (same_setTimer _ i n.bamGap)
   exact SameRx.ite _ (h1.trans (same_endSendTP _ i)) h1
 
 theorem same_pendingDev (n : Node) (i : Nat) : SameRx n (pendingDev n i) := by
